@@ -42,6 +42,17 @@ fn prod_chain(p: &Prod, middle: &[Op], seed: u64) -> Chain {
     // an even cap makes the counting iterator report its exact remaining length (like a Vec or
     // a range), an odd one leaves size_hint() at its default (like a filter / from_fn iterator)
     Prod::Iter => Src::IterCount(PID, CAP + (seed % 2) as usize),
+    // odd seeds: a stream with a backlog (six items ready in a row between two pending spells),
+    // so that several items are ready at the moment the stream is ended
+    Prod::Stream if seed % 2 == 1 => Src::Stream(
+      PID,
+      Scripted {
+        items: vec![(1, Ok(V::I(0))), (0, Ok(V::I(1))), (0, Ok(V::I(2))), (0, Ok(V::I(3))), (0, Ok(V::I(4))), (0, Ok(V::I(5))), (0, Ok(V::I(6))), (2, Ok(V::I(7)))],
+        end_pending: 0,
+        endless: true,
+        self_wake: true,
+      },
+    ),
     Prod::Stream => Src::Stream(
       PID,
       Scripted { items: vec![(1, Ok(V::I(0))), (0, Ok(V::I(1))), (2, Ok(V::I(2)))], end_pending: 0, endless: true, self_wake: true },
@@ -104,6 +115,7 @@ pub fn middle_sweep() -> Vec<Op> {
     )
   });
   v.extend([
+    Op::Status,
     Op::Delay(1),
     Op::ObserveOn,
     Op::Debounce(1),
